@@ -683,19 +683,31 @@ def rejection(ck, thorough):
         ck.case(desc, nontrivial=outcome != "ok", key=repr((oname, pname, existing, dirok)))
         if (outcome, state) != (m_outcome, int(m_state)):
             ck.mismatch("model save() vs frouros.utils.save", dict(object=oname, protocol=pname, existing=existing, dir_exists=dirok, impl=dict(outcome=outcome, file_state=state), model=dict(outcome=m_outcome, file_state=int(m_state))))
-        # the property itself, independent of the model
-        valid_proto = isinstance(p, (int, np.integer)) and 0 <= int(p) <= HIGHEST
-        must_reject = kind == "KOther" or not valid_proto
+        # the property itself, independent of the model and of the code's own range test
+        try:
+            in_range = isinstance(p, (bool, int, float, np.number)) and float(p) == int(p) and 0 <= int(p) <= HIGHEST
+        except (ValueError, OverflowError):
+            in_range = False  # nan / inf
+        valid_proto = in_range and isinstance(p, (int, np.integer))
+        touched = state != (2 if existing else 0)
         det_ = dict(object=oname, protocol=pname, protocol_repr=repr(p), path_existed=existing, dir_exists=dirok, outcome=outcome, file_state=["absent", "unreadable", "previous content", "new loadable pickle"][state])
-        if must_reject:
+        if kind == "KOther" or not in_range:
+            # not a detector / callback, or a protocol that is no member of 0..HIGHEST: must be rejected
+            # BEFORE the target is opened (rejects_before_write): the path is as it was
             if outcome == "ok":
                 ck.violation(dict(clause="reject-type" if kind == "KOther" else "reject-protocol", object=oname, protocol=pname), dict(what="save accepted what the property says must be rejected", **det_))
             elif state == 3:
                 ck.violation(dict(clause="reject-usable-file", object=oname, protocol=pname), dict(what="a rejected save left a loadable file", **det_))
-            elif state == 1 or (existing and state != 2):
-                # not what the property forbids (the file is not usable) but more than a rejection should do
+            elif touched:
+                ck.violation(dict(clause="reject-touches-file", object=oname, protocol=pname), dict(what="a rejected save created, emptied or replaced the target (validation after open)", **det_))
+        elif not valid_proto:
+            # a member of 0..HIGHEST that is not an int (2.0): the code's range test lets it through and pickle refuses it
+            if outcome != "ok" and state == 3:
+                ck.violation(dict(clause="reject-usable-file", object=oname, protocol=pname), dict(what="a failed save left a loadable file", **det_))
+            elif outcome != "ok" and touched:
+                # not what the property forbids (the file is not usable) but more than a failed save should do
                 ck.count("reject:left-empty-or-truncated-file:" + pname)
-        elif dirok and kind != "KOther":
+        elif dirok:
             if outcome != "ok" or state != 3:
                 ck.violation(dict(clause="picklable", cls=oname, protocol=pname), dict(what="valid object and protocol: save failed or wrote nothing loadable", **det_))
     n_trunc = sum(v for k_, v in ck.dist.items() if k_.startswith("reject:left-empty-or-truncated-file:"))
@@ -721,12 +733,25 @@ def table_tie(ck):
     from frouros.detectors.base import BaseDetector
 
     hdr = HEADER + "From FV Require Import Persist.\n"
-    res = coq_eval("C15tab", hdr, ["map (fun c => (callable_fields c, picklable_cls c, cls_kind c)) all_classes", "all_classes"])
-    rows, order = res
+    revs = ["StoresLambda", "StoresKey", "StoresModuleFunction"]
+    res = coq_eval("C15tab", hdr, [f"map (fun c => (callable_fields {r} c, picklable_cls {r} c, cls_kind c)) all_classes" for r in revs] + ["all_classes"])
+    order = res[-1]
     names = [c.name[2:] for c in order]
-    model = {}
-    for nm, (fields, pk, kind) in zip(names, rows):
-        model[nm] = (sorted((p, k.name) for p, k in fields), bool(pk), kind.name)
+    by_rev = {}
+    for r, rows in zip(revs, res):
+        by_rev[r] = {nm: (sorted((p, k.name) for p, k in fields), bool(pk), kind.name) for nm, (fields, pk, kind) in zip(names, rows)}
+    # which revision of BaseECDDConfig is this?  decided on the real object, independently of save()
+    ecdd = sorted((p, k) for p, k, _ in callable_fields(SPEC_BY_NAME["ECDDWT"].make(SPEC_BY_NAME["ECDDWT"].gen_cfg(ck.rng), [])))
+    rev = next((r for r in revs if by_rev[r]["ECDDWT"][0] == ecdd), None)
+    if rev is None:
+        ck.mismatch("no modelled revision of BaseECDDConfig matches the code", dict(impl=ecdd, model={r: by_rev[r]["ECDDWT"][0] for r in revs}))
+        rev = "StoresLambda"
+    ck.notes.append(
+        f"code revision of BaseECDDConfig as determined on the object graph: {rev} "
+        + ("(F25 present: C15_all_picklable_refuted / _partial apply)" if rev == "StoresLambda" else "(F25 fixed: C15_all_picklable applies to all 35 classes)")
+    )
+    ck.count("revision:" + rev)
+    model = by_rev[rev]
     objs = {s.name: s.make(s.gen_cfg(ck.rng), []) for s in SPECS}
     objs["HistoryConceptDrift"] = HistoryConceptDrift()
     objs["PermutationTestDistanceBased"] = PermutationTestDistanceBased(num_permutations=3)
